@@ -52,6 +52,8 @@ fn rdata_tok(d: &RData, nm: &dyn Fn(&Name) -> String) -> String {
             v.extend(t.txt_data.iter().map(|s| hex(s)));
             v.join(",")
         }
+        RData::HINFO(h) => format!("HINFO,{},{}", hex(&h.cpu), hex(&h.os)),
+        RData::CAA(c) => format!("CAA,{},{},{},{}", c.issuer_critical as u8, c.reserved_flags, hex(c.tag.as_bytes()), hex(&c.value)),
         other => format!("X{},{}", u16::from(other.record_type()), hex(format!("{other}").as_bytes())),
     }
 }
@@ -99,7 +101,7 @@ fn dump(origin: &Name, map: &BTreeMap<RrKey, RecordSet>) -> (String, Vec<String>
 // which texts have a model side
 
 const UNMODELLED_TYPES: &[&str] = &[
-    "caa", "cert", "csync", "ds", "hinfo", "https", "naptr", "openpgpkey", "smimea", "sshfp", "svcb", "tlsa",
+    "cert", "csync", "ds", "https", "naptr", "openpgpkey", "smimea", "sshfp", "svcb", "tlsa",
 ];
 
 fn has_backslash_digit(t: &str) -> bool {
@@ -378,6 +380,8 @@ enum GData {
     Soa(GName, GName, u32, u32, u32, u32, u32),
     Srv(u16, u16, u16, GName),
     Txt(Vec<Vec<u8>>),
+    Hinfo(Vec<u8>, Vec<u8>),
+    Caa(u8, Vec<u8>, Vec<u8>),
 }
 
 #[derive(Clone, Debug)]
@@ -427,6 +431,8 @@ impl GData {
                 v.extend(ss.iter().map(|s| hex(s)));
                 v.join(",")
             }
+            GData::Hinfo(c, o) => format!("HINFO,{},{}", hex(c), hex(o)),
+            GData::Caa(f, t, v) => format!("CAA,{},{},{},{}", f >> 7, f & 127, hex(t), hex(v)),
         }
     }
     fn names(&self) -> Vec<&GName> {
@@ -570,7 +576,7 @@ fn gen_records(r: &mut Rng, origin: &GName, wild: bool, clean: bool) -> Vec<GRec
         owners.push(owner.clone());
         let ttl = gen_ttl(r);
         let tname = |r: &mut Rng| if r.chance(3, 4) { gen_name_under(r, origin, wild) } else { gen_abs_name(r, wild) };
-        let kind = r.below(10);
+        let kind = r.below(12);
         let n = if matches!(kind, 2 | 4) { 1 } else { r.range(1, 3) };
         for _ in 0..n {
             let (rtype, code, data): (&'static str, u16, GData) = match kind {
@@ -609,6 +615,20 @@ fn gen_records(r: &mut Rng, origin: &GName, wild: bool, clean: bool) -> Vec<GRec
                 }
                 5 => ("MX", 15, GData::Mx(if r.chance(1, 5) { r.next() as u16 } else { r.below(100) as u16 }, tname(r))),
                 6 => ("SRV", 33, GData::Srv(r.below(100) as u16, r.next() as u16, r.next() as u16, tname(r))),
+                10 => ("HINFO", 13, GData::Hinfo(gen_string(r, clean), gen_string(r, clean))),
+                11 => {
+                    let tag: Vec<u8> = if r.chance(3, 4) {
+                        r.pick(&[&b"issue"[..], b"issuewild", b"iodef", b"contactemail"]).to_vec()
+                    } else {
+                        (0..r.range(1, 8)).map(|_| *r.pick(b"abcxyzABC019")).collect()
+                    };
+                    let value: Vec<u8> = if r.chance(1, 2) {
+                        r.pick(&[&b"letsencrypt.org"[..], b";", b"ca.example.net; account=230123", b"mailto:security@example.com", b"ca.example.net; validationmethods=dns-01"]).to_vec()
+                    } else {
+                        gen_string(r, clean)
+                    };
+                    ("CAA", 257, GData::Caa(*r.pick(&[0u8, 0, 0, 128, 1, 255]), tag, value))
+                }
                 _ => {
                     let k = match r.below(8) { 0 => 3, 1 => 2, _ => 1 };
                     ("TXT", 16, GData::Txt((0..k).map(|_| gen_string(r, clean)).collect()))
@@ -838,6 +858,8 @@ impl<'a> Printer<'a> {
             ],
             GData::Srv(p, w, q, n) => vec![p.to_string(), w.to_string(), q.to_string(), self.name(n, false)],
             GData::Txt(ss) => ss.iter().map(|s| self.char_string(s)).collect(),
+            GData::Hinfo(c, o) => vec![self.char_string(c), self.char_string(o)],
+            GData::Caa(f, t, v) => vec![f.to_string(), String::from_utf8(t.clone()).unwrap(), self.char_string(v)],
         }
     }
 
@@ -1211,7 +1233,7 @@ fn adversarial() -> Vec<String> {
 }
 
 pub fn run(o: &Opts, rec: &mut Recorder) {
-    rec.rule = "zone texts: (a) random record sets of A/AAAA/NS/CNAME/PTR/ANAME/MX/SOA/SRV/TXT printed by an independent RFC 1035 §5 printer with per-line random layout, (b) mutations of those, (c) token soup and garbage; a case is non-trivial when the text loaded to >= 1 record or is a malformed-stream text of >= 10 characters; distinct by case line".into();
+    rec.rule = "zone texts: (a) random record sets of A/AAAA/NS/CNAME/PTR/ANAME/MX/SOA/SRV/TXT/HINFO/CAA printed by an independent RFC 1035 §5 printer with per-line random layout, (b) mutations of those, (c) token soup and garbage; a case is non-trivial when the text loaded to >= 1 record or is a malformed-stream text of >= 10 characters; distinct by case line".into();
     for l in o.pre_lines.clone() {
         exec(&l, rec);
     }
